@@ -462,6 +462,16 @@ theorem dateCalls_valid (d : GenBank.Date) (h : d.valid = true) :
   simp only [List.map_append, h1, h2, h3]
   rfl
 
+/-- the REGENERATED `GenBank.String` under the registry `reg`, with its library parameters instantiated as
+described at the top of this file (dates through `upperASCII ∘ timeFormatValid`) -/
+def genWrite (reg : Registry) (r : Record) : Out Bytes :=
+  wOut (genBankString itoaB upperASCII timeFormatValid wrapSpaceModel Loc.printB originLenModel originStringModel
+    segmentLenModel (isQuotedIn reg) (isLiteralIn reg) (isToggleIn reg) (goRecord r))
+
+/-- on every record with a valid calendar date the regenerated writer is the model's `write` -/
+theorem genWrite_eq (reg : Registry) (r : Record) (hv : r.fields.date.valid = true) : genWrite reg r = write reg r :=
+  genBankString_eq reg upperASCII timeFormatValid r (dateCalls_valid _ hv)
+
 /-- non-vacuity: a record with a region, a DBLINK, a reference with PUBMED, an extra field, one feature and
 residues, dated 29-FEB-2020, under the initial registry -/
 example :
